@@ -57,6 +57,49 @@ func (c conj) shape() string {
 	return strings.Join(s, "+")
 }
 
+// class: a coarse semantic class of the conjunction (bounded number of violation keys).
+func (c conj) class() string {
+	if len(c) == 0 {
+		return "undef"
+	}
+	in, notin, bound, ex, dne := false, false, false, false, false
+	for _, a := range c {
+		switch {
+		case a.Op == "In":
+			in = true
+		case a.Op == "NotIn":
+			notin = true
+		case a.Op == "Exists":
+			ex = true
+		case a.Op == "DoesNotExist":
+			dne = true
+		case a.isBound():
+			bound = true
+		}
+	}
+	ne, _ := nonEmptyExact(c)
+	abs := admitsAbsent(c)
+	switch {
+	case !ne && !abs:
+		return "unsat"
+	case !ne && abs:
+		return "absent-only"
+	case in:
+		return "finite"
+	case bound && notin:
+		return "range+excl"
+	case bound:
+		return "range"
+	case ex && notin:
+		return "exists+excl"
+	case ex:
+		return "exists"
+	case notin && !dne:
+		return "notin"
+	}
+	return "other"
+}
+
 func (c conj) hasBound() bool {
 	for _, a := range c {
 		if a.isBound() {
